@@ -12,6 +12,16 @@ import (
 
 type regHolder struct{ r regInt }
 
+type safeStringer string
+
+func (safeStringer) SafeValue()       {}
+func (s safeStringer) String() string { return "S(" + string(s) + ")" }
+
+type safeErr struct{ s string }
+
+func (safeErr) SafeValue()      {}
+func (e safeErr) Error() string { return "E(" + e.s + ")" }
+
 // kind-preserving blanks: print nothing under the standard fmt
 type blankS string
 
@@ -73,6 +83,12 @@ func c05Leaf(k int, su, ss string, registered bool) (interface{}, interface{}) {
 			return v, 31
 		}
 		return v, blankI(0)
+	case 10:
+		// a SafeValue with a String method (its text is safe)
+		return safeStringer(ss), safeStringer(ss)
+	case 11:
+		// a SafeValue that is also an error
+		return safeErr{ss}, safeErr{ss}
 	}
 	panic("c05Leaf")
 }
